@@ -173,6 +173,12 @@ def memo_vector(obj, seen=None, depth=0):
                 out.append((k, "?"))
         elif k in LAZY:
             out.append((k, v if isinstance(v, bool) else v is not None))
+        elif isinstance(k, str) and k.startswith("_") and not k.startswith("__"):
+            # any other private slot: created / filled / grown since construction (a hand-rolled memo shows up here)
+            if isinstance(v, (dict, list, set)):
+                out.append((k, "len", len(v)))
+            else:
+                out.append((k, v is not None))
     # owned / shared sub-objects that carry memo state
     subs = []
     for name in ("cds", "_location", "parent", "location", "sequence", "_parent_or_seq_chunk_parent", "primary_transcript"):
@@ -661,10 +667,22 @@ def immut_ops(obj):
               "feature_name": {"pq-name"}, "transcript_name": {"pq-tname"}, "product": {"pq-product"}}
         ops.append(("to_gff(PQ)", lambda o, pq=PQ: list(o.to_gff(parent="p", parent_qualifiers=pq)), [PQ]))
         ops.append(("export_qualifiers(PQ)", lambda o, pq=PQ: o.export_qualifiers(pq), [PQ]))
+        # parent qualifiers that share only ONE key with the interval's own, and none at all
+        PQ1 = {"k": {"from-parent"}}
+        ops.append(("to_gff(PQ1)", lambda o, pq=PQ1: list(o.to_gff(parent="p", parent_qualifiers=pq)), [PQ1]))
+        ops.append(("export_qualifiers(PQ1)", lambda o, pq=PQ1: o.export_qualifiers(pq), [PQ1]))
+        ops.append(("to_gff()", lambda o: list(o.to_gff()), []))
+        ops.append(("export_qualifiers()", lambda o: o.export_qualifiers(), []))
         ops.append(("to_bed12", lambda o: o.to_bed12(), []))
         v = VariantInterval(start=3, end=4, sequence="GG", variant_type="insertion", parent_or_seq_chunk_parent=lib.chrom_parent(g))
         if not getattr(obj, "is_chunk_relative", False):
             ops.append(("incorporate_variants", lambda o, v=v: o.incorporate_variants(v), [v]))
+    if isinstance(obj, CDSInterval):
+        for tag, pq in (("PQ", {"k": {"from-parent"}, "protein_id": {"pq-pid"}, "product": {"pq-product"}}), ("PQ1", {"k": {"from-parent"}}), ("", None)):
+            ops.append((f"to_gff({tag})", lambda o, pq=pq: list(o.to_gff(parent="p", parent_qualifiers=pq)), [pq] if pq else []))
+            ops.append((f"export_qualifiers({tag})", lambda o, pq=pq: o.export_qualifiers(pq), [pq] if pq else []))
+        ops.append(("to_bed12", lambda o: o.to_bed12(), []))
+        ops.append(("translate+codons", lambda o: (o.translate(), o.chunk_relative_codon_locations, o.extract_sequence()), []))
     if isinstance(obj, Location) and type(obj) is not _EmptyLocation:
         short = obj.parent is not None and obj.parent.sequence is not None and len(obj.parent.sequence) < 10
         p = lib.mk_loc(((0, 2), (3, 4)) if short else ((3, 7), (8, 10)), lib.loc_strand(obj), obj.parent.strip_location_info() if obj.parent else None)
